@@ -499,3 +499,44 @@ def memo_is_pure(pm: PM, fi: FuncInfo) -> tuple[bool, str]:
                     # constant tables are fine if nobody writes them
                     pass
     return True, "depends only on its arguments"
+
+
+def memo_key_gaps(pm: PM, fi: FuncInfo):
+    """manual memoisation: `C[key] = value` into a container that outlives the call (attribute of self/cls/a class, or a
+    module-level name), in a function that also reads `C` (get / subscript / membership).  Returns
+    [(store node, container text, key leaves, value leaves, missing)] where `missing` are the parameter-rooted inputs the
+    stored value is computed from but the key does not mention (dependence through local temporaries is expanded)."""
+    from .astmatch import alternatives, leaves
+    fn = fi.node
+    params = {a.arg for a in list(fn.args.posonlyargs) + list(fn.args.args) + list(fn.args.kwonlyargs)} - {"self", "cls"}
+    out = []
+    for a in walk_no_nested(fn):
+        if not isinstance(a, ast.Assign) or len(a.targets) != 1 or not isinstance(a.targets[0], ast.Subscript):
+            continue
+        t = a.targets[0]
+        b = t.value
+        persistent = isinstance(b, ast.Attribute) and isinstance(b.value, ast.Name) and (b.value.id in ("self", "cls") or b.value.id in pm.classes)
+        if isinstance(b, ast.Name):
+            mi = pm.modules.get(fi.module)
+            persistent = mi is not None and b.id in mi.assigns
+        if not persistent:
+            continue
+        cont = unparse(b)
+        reads = [n for n in walk_no_nested(fn) if (isinstance(n, ast.Call) and isinstance(n.func, ast.Attribute) and n.func.attr == "get" and unparse(n.func.value) == cont)
+                 or (isinstance(n, ast.Subscript) and isinstance(n.ctx, ast.Load) and unparse(n.value) == cont)
+                 or (isinstance(n, ast.Compare) and any(unparse(c) == cont for c in n.comparators))]
+        if not reads:
+            continue            # a registry write, not a memo
+
+        def param_leaves(e):
+            ls = set()
+            for alt in alternatives(e, fn):
+                for x in leaves(alt):
+                    root = x.split(".")[0].split("[")[0]
+                    if root in params:
+                        ls.add(x)
+            return ls
+        kl, vl = param_leaves(t.slice), param_leaves(a.value)
+        missing = sorted(v for v in vl if not any(v == k or v.startswith(k + ".") or v.startswith(k + "[") for k in kl))
+        out.append((a, cont, sorted(kl), sorted(vl), missing))
+    return out
